@@ -212,7 +212,7 @@ def c18(run, d, mode):
                         bad.append('coordinates_and_lengths_truncated_to_integers')
                 if abs(float(a.confidence) - float(rec['Confidence'])) > 1e-9:
                     bad.append('confidence_to_two_decimals')
-                if parser_name == 'with_distance':
+                if parser_name == 'with_distance' and 'same_ids' not in bad:
                     for p in a.alignedPairs:
                         if p.reference.position != refs[a.referenceId].positions[p.reference.siteId - 1] or \
                                 p.query.position != qrys[a.queryId].positions[p.query.siteId - 1]:
